@@ -45,7 +45,7 @@ void h_write(void) {
     hc.fn_sha256_compression = verif_compress;
     __CPROVER_assume(wblk <= (UINT64_MAX >> 6));
     COMPLOG_RESET(); g_c_blocks = b0 / 64; g_cw_blk = wblk; g_cw_off = woff;
-    g_mc_base = (unsigned char *)&h; g_mc_doff = offsetof(secp256k1_sha256, buf) + woff; g_mc_calls = 0;
+    g_mc_big = NULL; g_mc_base = (unsigned char *)&h; g_mc_doff = offsetof(secp256k1_sha256, buf) + woff; g_mc_calls = 0;
 
     secp256k1_sha256_write(&hc, &h, data, len);
 
@@ -92,7 +92,7 @@ void h_write_c(void) {
     hc.fn_sha256_compression = verif_compress;
     COMPLOG_RESET(); g_c_blocks = b0 / 64; g_c_calls = c_calls; g_cw_hit = cw_hit; g_cw_byte = cw_byte;
     g_cw_blk = wblk; g_cw_off = woff; g_sk = sk; blocks0 = g_c_blocks;
-    g_mc_base = (unsigned char *)&h; g_mc_doff = offsetof(secp256k1_sha256, buf) + woff; g_mc_calls = 0;
+    g_mc_big = NULL; g_mc_base = (unsigned char *)&h; g_mc_doff = offsetof(secp256k1_sha256, buf) + woff; g_mc_calls = 0;
     secp256k1_sha256_write(&hc, &h, data, len);
     if (g_c_calls == c_calls + 2 && wblk == blocks0 + 7 && g_cw_hit == cw_hit + 1) REACH("write contract: two compression calls, watched block 7 of this call");
     if (g_c_calls == c_calls && len > 0) REACH("write contract: buffered only");
